@@ -32,6 +32,12 @@ package kadm
 //@   site mapupdate GroupMemberLag#0 assert [lag-from-zero] (val.Err == nil && !(in(tcommit, key) && tcommit[key].Offset.At >= 0) && !(in(tstart, key) && tstart[key].Err == nil)) ==>
 //@        val.Lag == max(0, tend[key].Offset)
 //@   site mapupdate GroupMemberLag#0 assert [own-partition] val.Partition == key && (in(tend, key) ==> val.End == tend[key])
+//   coverage of the second and third block: when the walk over a topic's committed partitions (listed end
+//   offsets) ends, every one of them has an entry in that topic's map - either from an earlier block or stored here
+//@   loop 5 invariant [committed-so-far-have-entries] forall k int32 :: visited(k) ==> in(lt, k)
+//@   loop 5 exit [every-committed-partition-has-an-entry] forall k int32 :: in(ps, k) ==> in(lt, k)
+//@   loop 7 invariant [listed-so-far-have-entries] forall k int32 :: visited(k) ==> in(lt, k)
+//@   loop 7 exit [every-listed-partition-has-an-entry] in(endOffsets, t) ==> forall k int32 :: in(endOffsets[t], k) ==> in(lt, k)
 //   second block: partitions that were committed to but are assigned to no member (pcommit is the ranged value)
 //@   site mapupdate GroupMemberLag#1 assert [err-iff] val.Err == nil <==> (in(tend, key) && tend[key].Err == nil && pcommit.Err == nil)
 //@   site mapupdate GroupMemberLag#1 assert [lag-on-error] val.Err != nil ==> val.Lag == -1
